@@ -186,7 +186,13 @@ def check(ctx):
         r1.bad(V(r1.id, "<anchor>", "missing:apply_string_validators", "anchor not found"))
     else:
         skipflags, schemavar = param_roles(fn)
+        # a flag read into a local first (`let wants_url = val.url; if wants_url {..}`) is the flag
+        alias = {}
+        for st_ in fn.body:
+            if st_.get("k") == "let" and st_.get("init") is not None and st_["pat"].get("k") == "ident" and st_["init"].get("k") == "field":
+                alias[st_["pat"]["name"]] = expr_text(st_["init"])
         for conds, sv in ev.fn_paths(fn, None, lambda n: None):
+            conds = [("not(%s)" % alias[c[4:-1]]) if (c.startswith("not(") and c[4:-1] in alias) else alias.get(c, c) for c in conds]
             pos = [c for c in conds if not c.startswith("not(")]
             r_ = render(sv)
             modes_ = [p_["pat"].get("name") for p_ in fn.sig.get("params", []) if p_.get("pat") and re.fullmatch(r"[A-Z]\w*", re.sub(r"\s+", "", p_.get("ty") or ""))]
@@ -437,6 +443,7 @@ def check(ctx):
                     continue
                 body = a["body"]
                 negates = any((x.get("k") == "unary" and x.get("op") == "-") or (x.get("k") == "mcall" and x["method"] in ("neg", "copysign", "checked_neg", "wrapping_neg"))
+                              or (x.get("k") == "path" and x.get("segs") and x["segs"][-1] == "neg")      # `.map(std::ops::Neg::neg)`
                               or (x.get("k") == "binary" and x.get("op") in ("*", "-") and "-" in expr_text(x)) or (x.get("k") == "macro" and "-" in expr_text(x))
                               for x in walk(body))
                 if negates:
